@@ -10,7 +10,7 @@
     Graphs: node ids pairwise distinct ([NoDup (node_ids g)], guaranteed by networkx); adjacency is symmetric by
     construction ([LGraph.adj]). *)
 From Coq Require Import List NArith ZArith Bool Arith Permutation Sorted.
-From SK Require Import lib.LGraph model.C12_Model proof.C12_Search proof.C12_Proof proof.C12_Prune proof.C12_Enum proof.C12_Sorted proof.C12_Component proof.C12_Mol.
+From SK Require Import lib.LGraph model.C12_Model model.C12_State proof.C12_Search proof.C12_Proof proof.C12_Prune proof.C12_Enum proof.C12_Sorted proof.C12_Component proof.C12_Mol proof.C12_State.
 Import ListNotations.
 
 (** ** 0. the specification: a common induced sub-graph mapping, written out.
@@ -383,3 +383,185 @@ Theorem C12_prune_auto_choices :
                exists k, In k kept /\ host_set k = host_set m).
 Proof. exact prune_auto_choices_valid. Qed.
 Print Assumptions C12_prune_auto_choices.
+
+(** ** 16. (round 5) the matcher OBJECT: constructor, raw attribute dictionaries, the cache as a state machine, the ITS facade
+    (model/C12_State.v; the correspondence runs every history of the Matcher copy through [run_history] -> [h_play] -> [m_step]
+    -> [m_find] / [m_rc] / [m_get], and the constructor cases through [run_ctor] -> [mk_config]). *)
+
+(** MCSMatcher.__init__: the stored options as a function of the arguments (None = argument omitted): node_attrs defaults to
+    ["element"], node_defaults to "*" repeated len(node_attrs) times, edge_attrs to ["order"] when omitted OR empty; ValueError
+    exactly when explicit defaults have another length than the names *)
+Theorem C12_ctor_normalised :
+  forall a : ctor_args,
+  match mk_config a with
+  | Some c =>
+      c_names c = match a_node_attrs a with Some l => l | None => [K_ELEMENT] end /\
+      length (c_defs c) = length (c_names c) /\
+      c_defs c = match a_node_defaults a with
+                 | Some l => l
+                 | None => repeat V_STAR (length match a_node_attrs a with Some l => l | None => [K_ELEMENT] end)
+                 end /\
+      c_enames c <> [] /\
+      c_enames c = match a_edge_attrs a with Some (x :: r) => x :: r | _ => [K_ORDER] end /\
+      c_prune c = a_prune_wc a /\ c_auto c = a_prune_auto a /\ c_wc c = a_wildcard a /\ c_ekey c = a_element_key a
+  | None => exists l, a_node_defaults a = Some l /\
+                      length l <> length match a_node_attrs a with Some l => l | None => [K_ELEMENT] end
+  end.
+Proof. exact mk_config_spec. Qed.
+Print Assumptions C12_ctor_normalised.
+
+(** the two matchers as the code evaluates them on the RAW attribute dictionaries (data.get(attr, default) per configured
+    name; _edge_match with float() and its != fall-back for values float() rejects) are the matchers of C12_Model.v on the
+    attribute selection [project_node] / [project_edge] -- so every theorem above speaks about the raw graphs *)
+Theorem C12_raw_matchers :
+  (forall (names defs : list N) (h p : rnattr), length defs = length names ->
+     node_match_raw names defs h p =
+     attrs_match defs (map (fun k => LGraph.assoc k h) names) (map (fun k => LGraph.assoc k p) names)) /\
+  (forall (names : list N) (h p : reattr),
+     edge_match_raw names h p =
+     edge_match (map (fun k => option_map evalue_code (LGraph.assoc k h)) names)
+                (map (fun k => option_map evalue_code (LGraph.assoc k p)) names)) /\
+  (forall a b : evalue, Z.eqb (evalue_code a) (evalue_code b) = evalue_eqb a b).
+Proof. exact (conj (fun names defs h p => node_match_raw_project names defs h p) (conj edge_match_raw_project evalue_code_eqb)). Qed.
+Print Assumptions C12_raw_matchers.
+
+(** ... in particular the validity clause read directly on the graphs the caller passes *)
+Theorem C12_raw_meaning :
+  forall (cfg : config) (ga gb : rgraph) (m : mapping), length (c_defs cfg) = length (c_names cfg) ->
+  common_induced (node_match (c_defs cfg)) edge_match (project cfg ga) (project cfg gb) m <->
+  NoDup (map fst m) /\ NoDup (map snd m) /\
+  (forall p h, In (p, h) m ->
+     exists a b, label ga p = Some a /\ label gb h = Some b /\ node_match_raw (c_names cfg) (c_defs cfg) b a = true) /\
+  (forall p h p' h', In (p, h) m -> In (p', h') m -> p <> p' ->
+     match LGraph.adj ga p p', LGraph.adj gb h h' with
+     | Some b, Some b' => edge_match_raw (c_enames cfg) b' b = true
+     | None, None => True
+     | _, _ => False
+     end).
+Proof. exact project_ci_iff. Qed.
+Print Assumptions C12_raw_meaning.
+
+(** history independence: a search call never looks at the cache -- its answer and the cache it leaves are those of a fresh
+    object, whatever calls (other pairs, other modes, failed calls, reads) the object served before; reads never change the
+    cache *)
+Theorem C12_history_independent :
+  forall (cfg : config) (st : mstate) (ops : list mop) (o : mop) (rds : list mop),
+  is_read o = false -> forallb is_read rds = true ->
+  m_run cfg st (ops ++ o :: rds) = fst (m_step cfg s_init o) /\
+  snd (m_step cfg (m_run cfg st ops) o) = snd (m_step cfg s_init o).
+Proof. exact (fun cfg st ops o rds Ho Hr => conj (history_last_search cfg st ops o rds Ho Hr) (history_answers_fresh cfg st ops o Ho)). Qed.
+Print Assumptions C12_history_independent.
+
+(** before any search, and after a facade call with an unknown side (the ValueError is raised AFTER the reset): nothing is
+    stored and every direction string -- also an unknown one -- is answered with the empty list *)
+Theorem C12_state_unknown :
+  (forall d : dir, m_get s_init d = Some []) /\
+  (forall (cfg : config) (st : mstate) (x : rc_input) (mcs comp : bool),
+     m_step cfg st (MRc x SBad mcs comp) = (s_init, SK.lib.Tok.L (SK.lib.Tok.I (-1)%Z :: m_views s_init))).
+Proof. exact state_unknown. Qed.
+Print Assumptions C12_state_unknown.
+
+(** in every cache an object can reach: the two direction requests are position-wise mutually inverse, the pattern->host
+    request equals one of them, and an unknown direction is refused exactly when a search has run *)
+Theorem C12_reads_inverse :
+  forall (cfg : config) (ops : list mop),
+  let st := m_run cfg s_init ops in
+  exists l12 l21 lp, m_get st D12 = Some l12 /\ m_get st D21 = Some l21 /\ m_get st DP2H = Some lp /\
+    l21 = map invert_mapping l12 /\ l12 = map invert_mapping l21 /\ (lp = l12 \/ lp = l21) /\
+    (m_get st DBad = None <-> s_flag st <> None).
+Proof. exact reads_inverse. Qed.
+Print Assumptions C12_reads_inverse.
+
+(** THE PROPERTY OVER HISTORIES: whatever happened to the object before, after find_common_subgraph(G1, G2, mcs) and any
+    number of reads the three direction requests answer with mappings that are valid for (G1, G2) as selected and pruned by this
+    object's options; the two directions are mutually inverse; in maximum mode all sizes equal last_size, no common induced
+    mapping is larger and every one of that size is returned *)
+Theorem C12_history_valid :
+  forall (cfg : config) (st : mstate) (ops : list mop) (g1 g2 : rgraph) (mcs : bool) (rds : list mop),
+  NoDup (node_ids g1) -> NoDup (node_ids g2) -> forallb is_read rds = true ->
+  let nm := node_match (c_defs cfg) in
+  let pr := fun g => prune_graph (c_prune cfg) (c_wc cfg) (project cfg g) in
+  let stf := m_run cfg st (ops ++ MFind g1 g2 mcs :: rds) in
+  exists l12 l21 lp, m_get stf D12 = Some l12 /\ m_get stf D21 = Some l21 /\ m_get stf DP2H = Some lp /\ m_get stf DBad = None /\
+    l21 = map invert_mapping l12 /\ l12 = map invert_mapping l21 /\ (lp = l12 \/ lp = l21) /\
+    (forall m, In m l12 -> common_induced nm edge_match (pr g1) (pr g2) m /\ (1 <= length m)%nat) /\
+    (forall m, In m l21 -> common_induced nm edge_match (pr g2) (pr g1) m /\ (1 <= length m)%nat) /\
+    (mcs = true ->
+       (forall m, In m l12 -> length m = s_last stf) /\
+       (forall m, common_induced nm edge_match (pr g1) (pr g2) m -> (length m <= s_last stf)%nat) /\
+       (forall m, common_induced nm edge_match (pr g1) (pr g2) m -> length m = s_last stf -> (1 <= s_last stf)%nat ->
+          exists m', In m' l12 /\ Permutation m m')).
+Proof. exact history_find_valid. Qed.
+Print Assumptions C12_history_valid.
+
+(** the ITS facade: with component=False it is find_common_subgraph on the sides it selects (r: right/right, l: left/left,
+    op: right of rc1 / left of rc2, its: the arguments themselves) *)
+Theorem C12_facade_sides :
+  forall (cfg : config) (st : mstate) (x : rc_input) (sd : side) (mcs : bool),
+  match sd with
+  | SR => m_step cfg st (MRc x sd mcs false) = m_step cfg st (MFind (rc_r1 x) (rc_r2 x) mcs)
+  | SL => m_step cfg st (MRc x sd mcs false) = m_step cfg st (MFind (rc_l1 x) (rc_l2 x) mcs)
+  | SOp => m_step cfg st (MRc x sd mcs false) = m_step cfg st (MFind (rc_r1 x) (rc_l2 x) mcs)
+  | SIts => m_step cfg st (MRc x sd mcs false) = m_step cfg st (MFind (rc_1 x) (rc_2 x) mcs)
+  | SBad => fst (m_step cfg st (MRc x sd mcs false)) = s_init
+  end.
+Proof. intros cfg st x [] mcs; try (apply rc_is_find; reflexivity); reflexivity. Qed.
+Print Assumptions C12_facade_sides.
+
+(** component mode after any history: exactly one stored mapping, reported G1 -> G2 (flag true), valid for the selected sides
+    also across components; the other direction is its inverse *)
+Theorem C12_history_component_valid :
+  forall (cfg : config) (st : mstate) (ops : list mop) (x : rc_input) (sd : side) (mcs : bool) (ga gb : rgraph) (rds : list mop),
+  pick_sides x sd = Some (ga, gb) ->
+  NoDup (node_ids ga) -> NoDup (node_ids gb) -> wfe (project cfg ga) -> wfe (project cfg gb) ->
+  forallb is_read rds = true ->
+  let nm := node_match (c_defs cfg) in
+  let pr := fun g => prune_graph (c_prune cfg) (c_wc cfg) (project cfg g) in
+  let stf := m_run cfg st (ops ++ MRc x sd mcs true :: rds) in
+  exists m, m_get stf D12 = Some [m] /\ m_get stf D21 = Some [invert_mapping m] /\ m_get stf DP2H = Some [m] /\
+    s_flag stf = Some true /\ s_last stf = length m /\
+    common_induced nm edge_match (pr ga) (pr gb) m /\ common_induced nm edge_match (pr gb) (pr ga) (invert_mapping m).
+Proof. exact history_component_valid. Qed.
+Print Assumptions C12_history_component_valid.
+
+(** ** 17. (round 5) the MTG copy as an object ([run_history_mtg] -> [t_play] -> [t_step]; constructor [mk_config_mtg]).
+    Constructor: no length test -- generic_node_match zips names, defaults and comparators, so only the first
+    min(len(names), len(defaults)) names are compared; its edge matcher on raw dictionaries (float() of both values, any
+    exception -> False) is [edge_match_mtg] on the selection [project_edge_mtg] *)
+Theorem C12_mtg_object :
+  (forall a : mtg_args, length (c_defs (mk_config_mtg a)) = length (c_names (mk_config_mtg a))) /\
+  (forall (names defs : list N) (h p : rnattr),
+     node_match_raw names defs h p =
+     node_match_raw (firstn (Nat.min (length names) (length defs)) names)
+                    (firstn (Nat.min (length names) (length defs)) defs) h p) /\
+  (forall (cfg : config) (k : N) (h p : reattr), c_enames cfg = [k] ->
+     edge_match_mtg (project_edge_mtg cfg h) (project_edge_mtg cfg p) = edge_match_mtg_raw k h p).
+Proof. exact (conj mk_config_mtg_lengths (conj node_match_raw_firstn edge_match_mtg_project)). Qed.
+Print Assumptions C12_mtg_object.
+
+(** history independence of the MTG object: a search leaves the cache (and gives the answer) of a fresh object *)
+Theorem C12_mtg_history_independent :
+  forall (cfg : config) (st : tstate) (ops : list top) (o : top) (rds : list top),
+  t_is_read o = false -> forallb t_is_read rds = true ->
+  t_run cfg st (ops ++ o :: rds) = fst (t_step cfg t_init o) /\
+  snd (t_step cfg (t_run cfg st ops) o) = snd (t_step cfg t_init o).
+Proof. exact mtg_history_last_search. Qed.
+Print Assumptions C12_mtg_history_independent.
+
+(** the property over histories of the MTG object (first argument = pattern, no pruning) *)
+Theorem C12_mtg_history_valid :
+  forall (cfg : config) (st : tstate) (ops : list top) (g1 g2 : rgraph) (mcs : bool) (rds : list top),
+  NoDup (node_ids g1) -> NoDup (node_ids g2) -> forallb t_is_read rds = true ->
+  let stf := t_run cfg st (ops ++ TFind g1 g2 mcs :: rds) in
+  let G1 := project_mtg cfg g1 in let G2 := project_mtg cfg g2 in
+  (forall m, In m (t_maps stf) -> common_induced (node_match (c_defs cfg)) edge_match_mtg G1 G2 m /\ (1 <= length m)%nat) /\
+  (mcs = true ->
+     (forall m, In m (t_maps stf) -> length m = t_last stf) /\
+     (forall m, common_induced (node_match (c_defs cfg)) edge_match_mtg G1 G2 m -> (length m <= t_last stf)%nat) /\
+     (forall m, common_induced (node_match (c_defs cfg)) edge_match_mtg G1 G2 m -> length m = t_last stf -> (1 <= t_last stf)%nat ->
+        exists m', In m' (t_maps stf) /\ Permutation m m')) /\
+  (mcs = false ->
+     forall m, common_induced (node_match (c_defs cfg)) edge_match_mtg G1 G2 m -> (1 <= length m)%nat ->
+        exists m', In m' (t_maps stf) /\ Permutation m m').
+Proof. exact mtg_history_valid. Qed.
+Print Assumptions C12_mtg_history_valid.
